@@ -257,6 +257,11 @@ func (c *checker) query(q *Query, outer []cscope) ([]ctype, error) {
 		if err != nil {
 			return nil, err
 		}
+		if staticallyEmptyLeaf(q.Src) {
+			// engine limitation: derived tables whose WHERE folds to not-TRUE are replaced by an empty table and
+			// neighbouring subqueries / outer joins are then mis-planned
+			return nil, fmt.Errorf("statically empty derived table")
+		}
 		sc := append([]cscope{{types: src}}, outer...)
 		if err := c.cond(q.Wh, sc); err != nil {
 			return nil, err
@@ -372,7 +377,9 @@ func (c *checker) query(q *Query, outer []cscope) ([]ctype, error) {
 		out := make([]ctype, len(l))
 		for i := range l {
 			t, ok := unify(l[i], r[i])
-			if !ok || (l[i] != r[i] && l[i] != tNull && r[i] != tNull) {
+			if !ok || l[i] != r[i] || l[i] == tNull {
+				// NULL-literal columns in set operations: the engine's type unification of such branches is the subject
+				// of several findings (text results, ORDER BY ignored, conversion errors); kept out of the random stream
 				// INT with DECIMAL columns: value identity across types is C07's subject
 				return nil, fmt.Errorf("set operation over different column types")
 			}
@@ -475,6 +482,20 @@ func escapesQ(q *Query, d int) bool {
 		return escapesQ(q.Q, d)
 	}
 	return false
+}
+
+func staticallyEmptyLeaf(src *Query) bool {
+	if src == nil {
+		return false
+	}
+	switch src.K {
+	case "table":
+		return false
+	case "join":
+		return staticallyEmptyLeaf(src.L) || staticallyEmptyLeaf(src.R)
+	}
+	b := peel(src)
+	return b != nil && (b.K == "select" || b.K == "group") && constFalseish(b.Wh)
 }
 
 func hasSubquery(e *Expr) bool {
